@@ -89,4 +89,89 @@ Proof.
     + rewrite hist_of_hists_of. reflexivity.
     + rewrite Hnan. rewrite <- rev_map_snoc. apply IH.
 Qed.
+
+Lemma gen_step_ps_eq (nanv : V) (st : @state V) (o : @op V) :
+  n_isnan N nanv = true ->
+  gen_step_ps N m L lp fl r nanv st o = step_ps N current_impl m L lp fl r st o.
+Proof.
+  intro Hnan. destruct o as [b|b v|bs|]; try reflexivity.
+  - unfold gen_step_ps, step_ps.
+    assert (E := Gen_ps_call_eq_model nanv (heap st) [PRef b] (hist st) Hnan).
+    destruct (gen_ps_call N m L lp fl r nanv (heap st) [PRef b] (hists_of (hist st))) as [out g].
+    simpl map in E. rewrite <- E. reflexivity.
+  - unfold gen_step_ps, step_ps.
+    assert (E := Gen_ps_call_eq_model nanv (heap st) (map PRef bs) (hist st) Hnan).
+    destruct (gen_ps_call N m L lp fl r nanv (heap st) (map PRef bs) (hists_of (hist st))) as [out g].
+    rewrite map_map in E.
+    change (map (fun x => deref_obj (heap st) (PRef x)) bs) with (map (buf (heap st)) bs) in E.
+    rewrite <- E. reflexivity.
+Qed.
+
+Lemma run_with_ext (f g : @state V -> @op V -> @state V * list (@res V)) :
+  (forall st o, f st o = g st o) -> forall ops st, run_with f st ops = run_with g st ops.
+Proof.
+  intros H ops. induction ops as [|o ops IH]; intro st; [reflexivity|].
+  simpl. rewrite H. destruct (g st o) as [st1 out]. rewrite IH. reflexivity.
+Qed.
+
+(* whole runs: every operation sequence, from every state, both interfaces *)
+Lemma run_gen_eq (nanv : V) (ps : bool) (st : @state V) (ops : list (@op V)) :
+  n_isnan N nanv = true ->
+  run_gen N m L lp fl r nanv ps st ops = run N current_impl m L lp fl r ps st ops.
+Proof.
+  intro Hnan. unfold run_gen, run. destruct ps; apply run_with_ext; intros.
+  - apply gen_step_ps_eq; exact Hnan.
+  - apply gen_step_eq.
+Qed.
+
+(* ---------- the property text stated on the translated source ---------- *)
+(* the eight flag combinations and the resample value, for the function read off Fitness.__call__ *)
+Lemma Gen_call_fom (h : list (list V)) (g : hists (@pentry V) V) (b : nat) :
+  length (buf h b) = prior_count m ->
+  (forall ll bx, evaluate N m L (buf h b) = EvOk ll bx ->
+     fst (gen_fitness_call N m L lp fl r h (PRef b) g) =
+     Ret (match fl_like fl, fl_chi2 fl with
+          | true, false => f_like N ll
+          | false, false => f_post N ll (pysum N (lp_list lp 0 (buf h b)))
+          | true, true => f_chi2 N (f_like N ll)
+          | false, true => f_chi2 N (f_post N ll (pysum N (lp_list lp 0 (buf h b))))
+          end)) /\
+  ((limits_gate N m (buf h b) = false \/
+    forallb (assert_ok N (buf h b)) (m_asserts m) = false \/
+    L (instance N m (buf h b)) = LRaise \/
+    (exists ll bx, L (instance N m (buf h b)) = LRet ll bx /\ n_isnan N ll = true)) ->
+   fst (gen_fitness_call N m L lp fl r h (PRef b) g) = Ret r) /\
+  (exists v, fst (gen_fitness_call N m L lp fl r h (PRef b) g) = Ret v).
+Proof.
+  intro Hl. assert (E := Gen_call_value h g b).
+  destruct (call_value_spec N m L lp fl r (buf h b) Hl) as (Hok & _ & _).
+  split; [|split].
+  - intros ll bx Ev. rewrite (Hok ll bx Ev) in E.
+    destruct (fst (gen_fitness_call N m L lp fl r h (PRef b) g)); simpl in E; congruence.
+  - intro Hc. rewrite (resample_cases N m L lp fl r (buf h b) Hl Hc) in E.
+    destruct (fst (gen_fitness_call N m L lp fl r h (PRef b) g)); simpl in E; congruence.
+  - destruct (call_value_no_escape N m L lp fl r (buf h b) Hl) as [v Hv]. rewrite Hv in E.
+    destruct (fst (gen_fitness_call N m L lp fl r h (PRef b) g)) as [v'|e]; simpl in E; [eauto | discriminate].
+Qed.
+
+(* the history after any operation sequence, computed by the translated source, is the specification's *)
+Lemma Gen_run_history (nanv : V) (h : list (list V)) (ops : list (@op V)) :
+  n_isnan N nanv = true ->
+  view (fst (run_gen N m L lp fl r nanv false (fresh h) ops)) = spec_history N m L fl (trace false h ops) /\
+  snd (run_gen N m L lp fl r nanv false (fresh h) ops) = spec_outputs N m L lp fl r h ops.
+Proof.
+  intro Hnan. rewrite (run_gen_eq nanv false (fresh h) ops Hnan). split.
+  - apply history_byvalue; [reflexivity | left; reflexivity].
+  - apply (run_outputs N current_impl m L lp fl r (fresh h) ops).
+Qed.
+
+Lemma Gen_run_pyswarms (nanv : V) (h : list (list V)) (ops : list (@op V)) :
+  n_isnan N nanv = true ->
+  Forall (fun v => length v = prior_count m) (trace true h ops) ->
+  view (fst (run_gen N m L lp fl r nanv true (fresh h) ops)) = spec_history_ps N m L lp r fl (trace true h ops) /\
+  snd (run_gen N m L lp fl r nanv true (fresh h) ops) = spec_outputs_ps N m L lp r h ops.
+Proof.
+  intros Hnan HF. rewrite (run_gen_eq nanv true (fresh h) ops Hnan).
+  exact (pyswarms_run N current_impl m L lp fl r h ops HF).
+Qed.
 End GenEq.
